@@ -117,3 +117,13 @@ PLANS['C20'] = dict(level='exploration',
     rule="rounds with T in {2,4,8,16} threads, each making a random mix of all public calls on private outputs and shared read-only inputs (24 URIs borrowed/owned, query lists, strings), per-thread recording managers with injected yields/sleeps and the default allocator, staggered starts and shuffled CPU affinity; ThreadSanitizer build; results compared with single-thread results; shared inputs deep-compared; in the shared-object build the library's writable segments are write-protected during the workload; the overlap matrix of call pairs observed on the same shared object is recorded; distinct = rounds and overlap counts",
     assumptions=["ThreadSanitizer reports races only on the interleavings that occurred; the schedule-independent part is the write protection of the library's .data/.bss and the comparison of shared inputs",
                  "the statement 'holds no writable global or static data' is decided as 'no store to library-owned static storage under write protection across a tour of the whole public API plus the threaded workload'; the symbol inventory (objdump) is reported"])
+
+
+# thorough tier only: libFuzzer (coverage-guided) with the monitor's oracle inside the target
+def _fuzz(mon, runs=6000000, max_len=100):
+    return R(mon, 'fuzz', thorough=dict(runs=runs, max_len=max_len), thorough_only=True)
+for _p, _m, _n, _l in (('C01', 'parse', 8000000, 80), ('C02', 'parse', 8000000, 80), ('C03', 'parse', 8000000, 80), ('C04', 'parse', 8000000, 80), ('C05', 'tostring', 3000000, 80),
+                       ('C06', 'resolve', 8000000, 120), ('C08', 'norm', 2000000, 80), ('C09', 'normres', 6000000, 120), ('C10', 'shorten', 8000000, 120), ('C14', 'fault', 3000000, 100),
+                       ('C16', 'escape', 6000000, 80), ('C17', 'query', 3000000, 80), ('C18', 'file', 8000000, 80)):
+    PLANS[_p]['runs'].append(_fuzz(_m, _n, _l))
+    PLANS[_p]['rule'] += "; thorough tier adds libFuzzer (coverage-guided, dictionary of URI tokens) with this monitor's oracle as the fuzz target"
